@@ -4,6 +4,7 @@ From NW Require Import Base.Bytes Model.SchemaTypes Gen.Schema Model.Codec Model
 From NW Require Import Proofs.ServerLib Proofs.ServerRoute Proofs.ServerHandlers Proofs.ServerSteps Proofs.ServerPhases.
 From NW Require Import Proofs.ServerInvBase Proofs.ServerInv Proofs.ServerUniq Proofs.ServerInvCor.
 From NW Require Import Gen.Errors Model.Pool Model.Framing Model.Link Proofs.LinkProofs.
+From NW Require Import Gen.Dispatch Proofs.DispatchTie.
 
 Theorem C06_preauth_is_inert :
   forall (cfg : scfg) (h : N) (m : msg) (p : option (list N)) (c : ctx) (cn : conn),
@@ -102,3 +103,77 @@ Theorem C06_undeclared_operation_never_sent :
   forall (cfg : lcfg) (hb id : N) (call : modcall) (o : moutcome),
     declared_for cfg call = false -> via_link cfg hb id call o = ([], RErr).
 Proof. exact via_link_undeclared_silent. Qed.
+
+Theorem C06_src_c2s_connecting_unlisted_refused :
+  forall (cfg : scfg) (m : msg) (p : option (list N)) (s : state) (cn : conn),
+    nlookup 1 (conns s) = Some cn ->
+    c_phase cn = Connecting ->
+    unlisted m c2s_connecting_accepts = true ->
+    outs (on_frame cfg 1 m p (ctx0 s)) = [OClose 1 (err_msg None "UNEXPECTED_MESSAGE")].
+Proof. exact c2s_connecting_unlisted_refused. Qed.
+
+Theorem C06_src_c2s_connected_unlisted_refused :
+  forall (cfg : scfg) (m : msg) (p : option (list N)) (s : state) (cn : conn),
+    nlookup 1 (conns s) = Some cn ->
+    c_phase cn = Connected ->
+    unlisted m c2s_connected_accepts = true ->
+    outs (on_frame cfg 1 m p (ctx0 s)) = [OClose 1 (err_msg None "UNEXPECTED_MESSAGE")].
+Proof. exact c2s_connected_unlisted_refused. Qed.
+
+Theorem C06_src_c2s_authenticated_unlisted_refused :
+  forall (cfg : scfg) (h : N) (me : nid) (m : msg) (p : option (list N)) (c : ctx),
+    unlisted m c2s_authenticated_accepts = true ->
+    dispatch_auth cfg h me m p c = fail c (PErr None "UNEXPECTED_MESSAGE").
+Proof. exact c2s_authenticated_unlisted_refused. Qed.
+
+Theorem C06_src_c2s_listed_handled :
+  forallb
+      (fun n : list N => eqb (name_handled_c2s_auth n) (in_list c2s_authenticated_accepts n))
+      all_kind_names = true.
+Proof. exact c2s_authenticated_handled_iff_listed. Qed.
+
+Theorem C06_src_c2s_preauth_listed_handled :
+  forallb (pre_handled noauth_cfg Connecting) c2s_connecting_accepts = true /\
+    forallb
+      (fun k : string => pre_handled noauth_cfg Connected k || pre_handled full_cfg Connected k)
+      c2s_connected_accepts = true.
+Proof. exact c2s_preauth_listed_handled. Qed.
+
+Theorem C06_src_s2m_connecting_unlisted_refused :
+  forall (cfg : lcfg) (m : msg) (p : option (list N)) (c : lctx),
+    lph c = LConnecting ->
+    lclosed c = false ->
+    unlisted m s2m_connecting_accepts = true ->
+    s2m_frame cfg m p c = lnotify_error (PErr None "UNEXPECTED_MESSAGE") c.
+Proof. exact s2m_connecting_unlisted_refused. Qed.
+
+Theorem C06_src_s2m_authenticated_unlisted_refused :
+  forall (cfg : lcfg) (m : msg) (p : option (list N)) (c : lctx),
+    unlisted m s2m_authenticated_accepts = true ->
+    s2m_request cfg m p c = lnotify_error (PErr None "UNEXPECTED_MESSAGE") c.
+Proof. exact s2m_authenticated_unlisted_refused. Qed.
+
+Theorem C06_src_m2s_connecting_unlisted_refused :
+  forall (cfg : lcfg) (m : msg) (p : option (list N)) (c : lctx),
+    lph c = LConnecting ->
+    lclosed c = false ->
+    unlisted m m2s_connecting_accepts = true ->
+    m2s_frame cfg m p c = lnotify_error (PErr None "UNEXPECTED_MESSAGE") c.
+Proof. exact m2s_connecting_unlisted_refused. Qed.
+
+Theorem C06_src_m2s_authenticated_unlisted_refused :
+  forall (cfg : lcfg) (m : msg) (p : option (list N)) (c : lctx) (hb : N),
+    lph c = LAuth hb ->
+    lclosed c = false ->
+    l_max_inflight cfg <> 0 ->
+    is_kind m "PONG" = false ->
+    unlisted m m2s_authenticated_accepts = true ->
+    m2s_frame cfg m p c = lnotify_error (PErr None "UNEXPECTED_MESSAGE") c.
+Proof. exact m2s_authenticated_unlisted_refused. Qed.
+
+Theorem C06_src_link_listed_handled :
+  forallb (link_handled KS2m LConnecting) s2m_connecting_accepts = true /\
+    forallb (link_handled KS2m (LAuth 1000)) s2m_authenticated_accepts = true /\
+    forallb (link_handled KM2s LConnecting) m2s_connecting_accepts = true /\
+    forallb (link_handled KM2s (LAuth 1000)) m2s_authenticated_accepts = true.
+Proof. exact link_listed_handled. Qed.
